@@ -39,6 +39,10 @@ typedef uint32_t XMLUInt32;
 #define XV_ISINF(x) (XV_ABS(x) > DBL_MAX)
 #define XV_FINITE(x) (!XV_ISNAN(x) && !XV_ISINF(x))
 
+#define XV_SIGNBIT(x) ((xv_bits(x) >> 63) != 0)
+#define XV_SAME(a, b) ((XV_ISNAN(a) && XV_ISNAN(b)) || xv_bits(a) == xv_bits(b))
+static inline uint64_t xv_bits(double d);
+
 /* DoubleSupport.hpp inline helpers (XALAN_HAVE_STD_ISNAN configuration;
  * NumberUnion::operator== is a bitwise compare of the two 32-bit halves). */
 static inline uint64_t xv_bits(double d) { union { double d; uint64_t u; } x; x.d = d; return x.u; }
